@@ -133,7 +133,8 @@ class TNormal(ssm_impl_api.AbstractTreeNormal):
     @property
     def mean(self):
         TR.op("read_mean", 0, [self.mean_flat])
-        return self._coeff(lambda i, k: jnp.mod(i, 5.0) + 1.0 + k, (1.0, 7.0))
+        # (signed: odd ids carry negative means, so that max(|u_prev|, |u_new|) differs from |max(u_prev, u_new)|)
+        return self._coeff(lambda i, k: (1.0 - 2.0 * jnp.mod(i, 2.0)) * (jnp.mod(i, 5.0) + 1.0 + k), (1.0, 7.0))
 
     @property
     def std(self):
